@@ -183,6 +183,11 @@ def join(a, b):
     if b is None:
         return a
     ta, tb = type(a), type(b)
+    if ta.__name__ == "Un" or tb.__name__ == "Un":
+        # units domain (units.py): joining a unit with a non-unit is a unit error
+        if ta is tb:
+            return a.join(b)
+        return (a if ta.__name__ == "Un" else b).__class__("ERR")
     if ta is Top or tb is Top:
         return a if ta is Top else b
     if ta is not tb:
